@@ -24,6 +24,8 @@ func init() {
 				{Name: "eth-FX+usdt", Spec: &bridge.Spec{Prop: "C04", Chains: []string{"eth"}, Tokens: []string{"FX", "usdt"}, Ledger: true, Calls: true, Inbound: true, MaxSend: 2}, Depth: 4, ShardDepth: 2},
 				{Name: "eth-usdt+tok-evm", Spec: &bridge.Spec{Prop: "C04", Chains: []string{"eth"}, Tokens: []string{"usdt", "tok"}, Ledger: true, EVM: true, Calls: true, MaxSend: 2}, Depth: 4, ShardDepth: 2},
 				{Name: "batch-life-cycle-deep", Spec: &bridge.Spec{Prop: "C04", Chains: []string{"eth"}, Tokens: []string{"usdt", "tok"}, Ledger: true, MaxSend: 3, Focus: "batches"}, Depth: 7, ShardDepth: 2},
+				// 99 transfers wait in the pool; two more sends make it more than one batch (100 entries) can take
+				{Name: "pool-larger-than-a-batch", Spec: &bridge.Spec{Prop: "C04", Chains: []string{"eth"}, Tokens: []string{"FX"}, Ledger: true, Book: true, MaxSend: 101, Prefill: 99, Focus: "batches"}, Depth: 4, ShardDepth: 1},
 			}
 		},
 	})
